@@ -178,6 +178,11 @@ func cycles(gs []parked) map[string][]string {
 func persistentCycle() (string, []string, bool) {
 	first := cycles(dump())
 	firstApply := parkedInApply(dump())
+	for id, where := range parkedOnLock(dump()) {
+		if _, ok := firstApply[id]; !ok {
+			firstApply[id] = where
+		}
+	}
 	if len(first) == 0 && len(firstApply) == 0 {
 		return "", nil, false
 	}
@@ -191,6 +196,11 @@ func persistentCycle() (string, []string, bool) {
 			}
 		}
 		nowApply := parkedInApply(gs)
+		for id, where := range parkedOnLock(gs) {
+			if _, ok := nowApply[id]; !ok {
+				nowApply[id] = where
+			}
+		}
 		for id, where := range firstApply {
 			if nowApply[id] != where {
 				delete(firstApply, id)
@@ -226,6 +236,9 @@ func persistentCycle() (string, []string, bool) {
 			for _, id := range ids {
 				for _, g := range gs {
 					if g.id == id && g.long {
+						if strings.HasPrefix(firstApply[id], "lock-wait-in-") {
+							return firstApply[id], []string{id}, true
+						}
 						return "apply-goroutine-parked-in-" + firstApply[id], []string{id}, true
 					}
 				}
@@ -233,6 +246,27 @@ func persistentCycle() (string, []string, bool) {
 		}
 	}
 	return "", nil, false
+}
+
+// parkedOnLock: goroutines of the control plane (innermost repository frame in cluster, storage or storage/raft)
+// that wait for a mutex. Every lock of the control plane is held for a short section or across a wait that is
+// itself bounded by seconds, so a goroutine that has waited for one for more than a minute waits for ever.
+func parkedOnLock(gs []parked) map[string]string {
+	out := map[string]string{}
+	for _, g := range gs {
+		if !strings.HasPrefix(g.state, "sync.") || strings.HasPrefix(g.state, "sync.Cond") || strings.HasPrefix(g.state, "sync.WaitGroup") {
+			continue
+		}
+		m := repoFrame.FindStringSubmatch(g.text)
+		if m == nil {
+			continue
+		}
+		if !(strings.HasPrefix(m[1], "cluster.") || strings.HasPrefix(m[1], "storage.") || strings.HasPrefix(m[1], "storage/raft.")) {
+			continue
+		}
+		out[g.id] = "lock-wait-in-" + m[1] + ":" + strings.ReplaceAll(g.state, " ", "-")
+	}
+	return out
 }
 
 var repoFrame = regexp.MustCompile(`(?m)^github\.com/marekgalovic/anndb/(\S+)\(`)
@@ -273,6 +307,7 @@ func scenario(rec *mon.Recorder, c int) bool {
 	rec.Current(desc)
 	cl := sim.New(sim.Options{Nodes: nodes, Dir: os.Getenv("VERIF_SCRATCH") + fmt.Sprintf("/c18-%d", c), TickEvery: 5 * time.Millisecond, Seed: rec.Seed() + int64(c)})
 	defer cl.Close()
+	var dialsHolding, changesHolding int64
 	// widen the window between "lock taken" and "handed to the loop"
 	cl.OnPoint = func(point string, args ...interface{}) {
 		if strings.HasPrefix(point, "allocator.") {
@@ -280,6 +315,36 @@ func scenario(rec *mon.Recorder, c int) bool {
 				runtime.Gosched()
 			} else if rng == 1 {
 				time.Sleep(200 * time.Microsecond)
+			}
+		}
+		// the address book's own locks: a dial that has taken the connection lock, a membership change
+		// that has taken the address lock
+		if strings.HasPrefix(point, "conn.") {
+			switch point {
+			case "conn.dial.connsLocked":
+				// a dial that missed the connection cache (first contact with a peer since it joined or
+				// re-joined) holds the connection lock: keep it there for up to 40 ms, or until a membership
+				// change has taken the address lock
+				atomic.AddInt64(&dialsHolding, 1)
+				rec.Count("dials_held_with_the_connection_lock", 1)
+				limit := time.Duration(5+time.Now().UnixNano()%35) * time.Millisecond
+				for t0 := time.Now(); time.Since(t0) < limit; {
+					if atomic.LoadInt64(&changesHolding) > 0 {
+						rec.Count("dial_and_membership_change_each_holding_one_lock", 1)
+						time.Sleep(2 * time.Millisecond)
+						break
+					}
+					time.Sleep(100 * time.Microsecond)
+				}
+				atomic.AddInt64(&dialsHolding, -1)
+			default:
+				atomic.AddInt64(&changesHolding, 1)
+				if atomic.LoadInt64(&dialsHolding) > 0 {
+					time.Sleep(3 * time.Millisecond)
+				} else {
+					time.Sleep(time.Duration(time.Now().UnixNano()%1500) * time.Microsecond)
+				}
+				atomic.AddInt64(&changesHolding, -1)
 			}
 		}
 	}
